@@ -78,6 +78,16 @@ Definition check_geom (user stored : list pt) (pi a cx cy vol : Q) : Z :=
          end
   end.
 
+(* zero-area vertex lists: area 0, centroid raises ZeroDivisionError (raised = true), volume 0 *)
+Definition check_degenerate (user stored : list pt) (a vol : Q) (raised : bool) : Z :=
+  match stored_vertices user with
+  | inl _ => 1%Z
+  | inr l =>
+    if forallb2 pt_eqb l stored && Qeq_bool (area_r l) 0 && Qeq_bool a 0 && Qeq_bool vol 0 && raised
+       && match centroid_r l with None => true | Some _ => false end && Qeq_bool (volume_r 1 l) 0
+    then 0%Z else 1%Z
+  end.
+
 (* constructor errors: 0 = accepted, 1 = TypeError, 2 = ValueError *)
 Definition check_err (user : list pt) (code : Z) : Z :=
   if (err_code (stored_vertices user) =? code)%Z then 0%Z else 1%Z.
